@@ -1,7 +1,6 @@
 package leaderx
 
 import (
-	"io"
 	"log/slog"
 	"os"
 	"testing"
@@ -12,7 +11,7 @@ import (
 var tmpRoot string
 
 func TestMain(m *testing.M) {
-	slog.SetDefault(slog.New(slog.NewTextHandler(io.Discard, nil)))
+	slog.SetDefault(slog.New(slog.NewTextHandler(evid.WarnLog(), &slog.HandlerOptions{Level: slog.LevelWarn})))
 	var err error
 	base := os.Getenv("VERIF_TMP")
 	if base == "" {
